@@ -284,6 +284,8 @@ def check_one(tag, m, ch, init, ctx):
     ctx.case()
     res = None
     arg = mk()
+    if len(ch) >= 2 and sum(int(p) for _, p in ch) % 2:
+        arg = arg[::-1]  # a list of changes has no order of its own: handed over in reverse for half of the lists
     arg_before = [(a.bpm, a.metronome, int(a.snap.measure), F(a.snap.beat)) for a in arg]
     try:
         res = TimingMap.reseat_bpm_changes_snap(arg)
